@@ -444,7 +444,7 @@ class Enc:
         return (None, lhs_type, None)
 
     def assign(self, lhs, rhs):
-        lhs = lhs.strip()
+        lhs = self.norm(lhs.strip())          # a write through `(*_p)` with `_p = &mut _n` is a write to `_n`
         base = re.search(r"_\d+", lhs).group(0)
         if re.match(r"^_\d+$", lhs):
             self.alias.pop(lhs, None)
@@ -498,6 +498,10 @@ class Enc:
             if t.startswith("&mut") or "&mut" in t[:12]:
                 for k in [k for k in self.env if f"(*{am.group(1)})" in k]:
                     del self.env[k]
+                tgt = self.ptr.get(am.group(1))
+                if tgt:
+                    self.kill(tgt)            # the callee may write to the local the reference points to
+                    self.env.pop(f"discriminant({tgt})", None)
         self.contract(lhs, lt, callee, args)
 
     def contract(self, lhs, lt, callee, args):
@@ -683,6 +687,8 @@ def analyse_fn(fn, solvers, stats, path_cap=4000):
                     bm = re.search(r"_\d+", m.group(1))
                     if bm:
                         s.add(bm.group(0))
+                for am in re.finditer(r"&mut (_\d+)", st):
+                    s.add(am.group(1))
             tm = blocks[x]["term"] or ""
             m = re.match(r"^(.*?) = .*\) -> ", tm)
             if m:
@@ -978,7 +984,7 @@ def run_job(job, overlay, scratch):
     if st:
         r["reason"] = "translator self-test failed (encoding not trusted): " + st[:400]
         return r
-    r["assumptions"].append("translator validated on this run against rustc's MIR of lib/e2_selftest/known.rs (21 functions with known verdicts)")
+    r["assumptions"].append("translator validated on this run against rustc's MIR of lib/e2_selftest/known.rs (27 functions with known verdicts)")
     try:
         bl = json.load(open(BASELINE))["undecided"] if os.path.isfile(BASELINE) else {}
         # key -> number of undecided sites with that key on the unchanged tree
